@@ -11,6 +11,8 @@ def parseOp (s : String) : Option Req :=
   | ["sleep", i] => i.toNat?.map .overrun
   | ["panic"] => some .panic
   | ["oom"] => some .oom
+  -- a request larger than the memory limit: the child aborts while reading it (no reply), like `oom`
+  | ["huge", _] => some .oom
   | ["exit"] => some .exit
   | _ => none
 
